@@ -175,13 +175,15 @@ Record world := mk_world {
   ready : list rentry;
   exts : list (nat * wake);      (* completed environment futures *)
   occ : list (string * nat);
-  trace : list event
+  trace : list event;
+  wintr : option nat;            (* Waiting._interruption: delivered to the waiting future, not yet seen by execute() *)
+  wrecalled : option nat         (* Waiting._recalled: an interruption execute() has to ignore *)
 }.
 
 #[export] Instance eta_world : Settable _ := settable! mk_world
   <cfg; st; stepping; pausing; killing; intr; acts; next_id; paused; pre_paused_status; status; pfut;
    pfut_original; orig_fut_cancelled; closed; cleanups; hooks_alive; transitioning; transition_failing;
-   outputs; ospec; t0; ready; exts; occ; trace>.
+   outputs; ospec; t0; ready; exts; occ; trace; wintr; wrecalled>.
 
 Notation LM := (M world).
 
@@ -379,7 +381,7 @@ Section Reentrant.
     | Some s' => ret (Some s')
     | None =>
         w1 <- get ;;
-        put (w1 <| st := Some ns |>) ;;;
+        put (w1 <| st := Some ns |> <| wintr := None |> <| wrecalled := None |>) ;;;   (* a new state object *)
         emit (EvEntered (cur_label w) (label_of ns)) ;;;
         w2 <- get ;;
         when (hooks_alive w2) (on_entered w) ;;;
@@ -452,13 +454,32 @@ Section Reentrant.
         match wf with
         | WfDone _ => ret tt                         (* already resumed / interrupted: nothing to deliver *)
         | WfPending =>
-            put (w <| st := Some (SWaiting fn msg data wid (WfDone (WkIntr iid))) |>) ;;;
+            put (w <| st := Some (SWaiting fn msg data wid (WfDone (WkIntr iid))) |> <| wintr := Some iid |>) ;;;
             match t0 w with
             | PcAwaitWaiting wid' => when (Nat.eqb wid wid') (schedule (RWakeT0 (WkIntr iid)))
             | _ => ret tt
             end
         end
     | _ => ret tt
+    end.
+
+  (* State.recall(reason): withdraw an interruption execute() has not seen yet (only Waiting does something) *)
+  Definition state_recall (iid : nat) : LM unit :=
+    w <- get ;;
+    match wintr w with
+    | Some i =>
+        if Nat.eqb i iid then
+          modify (fun w => w <| wrecalled := Some iid |>) ;;;
+          match st w with
+          | Some (SWaiting fn msg data wid (WfDone (WkIntr j))) =>
+              if Nat.eqb j iid then
+                wid' <- fresh ;;
+                modify (fun w => w <| st := Some (SWaiting fn msg data wid' WfPending) |>)
+              else ret tt
+          | _ => ret tt
+          end
+        else ret tt
+    | None => ret tt
     end.
 
   (* _do_pause(state_msg, next_state) *)
@@ -501,6 +522,7 @@ Section Reentrant.
     | None =>
         match pausing w with
         | Some a =>
+            match get_act w a with Some ac => state_recall (a_cookie ac) | None => ret tt end ;;;
             cancel_act a ;;; modify (fun w => w <| pausing := None |>) ;;; set_interrupt_action None
         | None => ret tt
         end ;;;
@@ -623,8 +645,12 @@ Definition run_action (id : nat) (next : option pstate) : LM unit :=
           r <- attempt (match a_kind a with
                         | KPause msg => do_pause (do_ctl reent_fuel) msg next
                         | KKill msg =>
-                            (* do_kill(_next_state): transition to KILLED; finally: self._killing = None *)
-                            finally (transition (Some (SKilled (Some msg))) ;;; ret true)
+                            (* do_kill(_next_state): a failed step stays a failure; otherwise transition to KILLED;
+                               finally: self._killing = None *)
+                            finally (match next with
+                                     | Some (SExcepted e) => transition next ;;; ret false
+                                     | _ => transition (Some (SKilled (Some msg))) ;;; ret true
+                                     end)
                                     (modify (fun w => w <| killing := None |>))
                         end) ;;
           (* with capture_exceptions(self): self.set_result(...) — the action may have been cancelled meanwhile *)
@@ -720,24 +746,49 @@ Definition after_run_fn (o : step_out) : LM exec_out :=
       end
   end.
 
-(* Waiting.execute once the waiting future is done *)
-Definition after_waiting (fn : option string) (awaited : nat) (wk : wake) : LM exec_out :=
+(* Waiting.execute once the awaited future (identity [awaited]) is done.  [again]: the `while True` loop has
+   already gone round once (an interruption was recalled), a second recalled interruption is impossible *)
+Definition after_waiting_once (fn : option string) (awaited : nat) (wk : wake) (again : option nat -> LM exec_out) : LM exec_out :=
   match wk with
   | WkIntr iid =>
-      (* `except Interruption: if self._waiting_future is future: self._waiting_future = Future(); raise` *)
+      (* `except Interruption: self._interruption = None; if self._waiting_future is future: self._waiting_future =
+         Future(); if interruption is self._recalled: self._recalled = None; continue; raise` *)
+      modify (fun w => w <| wintr := None |>) ;;;
       w <- get ;;
       match st w with
       | Some (SWaiting f m d cur _) =>
-          if Nat.eqb cur awaited then
-            wid <- fresh ;;
-            modify (fun w => w <| st := Some (SWaiting f m d wid WfPending) |>) ;;; ret (XoInterrupted iid)
-          else ret (XoInterrupted iid)
+          (if Nat.eqb cur awaited then
+             wid <- fresh ;;
+             modify (fun w => w <| st := Some (SWaiting f m d wid WfPending) |>)
+           else ret tt) ;;;
+          w' <- get ;;
+          match wrecalled w' with
+          | Some r => if Nat.eqb r iid then modify (fun w => w <| wrecalled := None |>) ;;; again (Some iid)
+                      else ret (XoInterrupted iid)
+          | None => ret (XoInterrupted iid)
+          end
       | _ => ret (XoInterrupted iid)
       end
   | WkExn e => ret (XoRaised e)
   | WkNull | WkNone => ret (XoNext (Some (SRunning (match fn with Some f => f | None => "" end) [] [])))
   | WkVal v => ret (XoNext (Some (SRunning (match fn with Some f => f | None => "" end) [v] [])))
   end.
+
+Definition set_t0' (p : pc) : LM unit := modify (fun w => w <| t0 := p |>).
+
+(* the loop went round: await the current waiting future *)
+Definition await_current (fn : option string) (k : nat -> wake -> LM exec_out) : LM exec_out :=
+  w <- get ;;
+  match st w with
+  | Some (SWaiting _ _ _ wid (WfDone wk)) => k wid wk
+  | Some (SWaiting _ _ _ wid WfPending) => set_t0' (PcAwaitWaiting wid) ;;; ret XoSuspended
+  | _ => ret (XoRaised EAttribute)
+  end.
+
+Definition after_waiting (fn : option string) (awaited : nat) (wk : wake) : LM exec_out :=
+  after_waiting_once fn awaited wk
+    (fun _ => await_current fn (fun wid wk' =>
+       after_waiting_once fn wid wk' (fun iid => ret (XoInterrupted (match iid with Some i => i | None => 0 end))))).
 
 (* self._state.execute(), from its beginning *)
 Definition execute_state : LM exec_out :=
@@ -896,7 +947,7 @@ Definition run_entry (r : rentry) : LM unit :=
 (* ------------------------------------------------------------------ construction *)
 Definition init_world (c : config) : world :=
   mk_world c None false None None None [] 0 None None None PfPending true false false [0] true false false
-           [] (cf_ospec c) PcNotStarted [] [] [] [].
+           [] (cf_ospec c) PcNotStarted [] [] [] [] None None.
 
 (* StateMachineMeta.__call__: transition_to(create_initial_state()); init().  The harness then creates
    the stepping task: its first step is the first ready callback. *)
